@@ -7,7 +7,8 @@
        observed coordinate equals the value computed from the adjusted coordinates printed in the same file
        (in the user's frame, also when the axes are declared inconsistent with the angles);
   (R3) carries the same adjusted coordinates as the text report of the same run;
-  (R4) honours --cov-band: dim / band / number of elements as requested, entries equal to those of the full matrix.
+  (R4) honours --cov-band: dim / band / number of elements as requested, entries equal to those of the full matrix;
+  (R5) is read back identically when the same file is laid out with other line breaks (expat delivers text in pieces).
 """
 import math, os, re
 import xml.etree.ElementTree as ET
@@ -296,6 +297,19 @@ def run(ctx):
             else:
                 rb = parse_readback(out)
                 dd += compare_readback(rb, fv)
+                # (R5) the reader does not depend on the layout of the file: one tag per line, every text node on a line of its own
+                flow = re.sub(rb">([^<>\n]+)<", rb">\n\1\n<", re.sub(rb">\s*<", b">\n<", open(xmlp, "rb").read()))
+                fp = xmlp + ".reflow.xml"
+                open(fp, "wb").write(flow)
+                rc2, out2, err2 = vlib.sh([rb_exe, fp], timeout=120)
+                os.remove(fp)
+                if rc2 != 0:
+                    dd.append("gama's adjustment-results reader died on the same file with other line breaks (rc %d): %s" % (rc2, err2[-300:]))
+                elif [l for l in out2.split("\n") if not l.startswith("GEN ")] != [l for l in out.split("\n") if not l.startswith("GEN ")]:
+                    # (the description is free text: white space around it is content, so the GEN record is left out)
+                    k = next((i for i, (x, y) in enumerate(zip(out.split("\n"), out2.split("\n"))) if x != y), -1)
+                    dd.append("the reader stores something else when the same XML has other line breaks: record %d: %s | %s" % (
+                        k, out.split("\n")[k][:80] if k >= 0 else "", out2.split("\n")[k][:80] if k >= 0 else ""))
             dd += internal_consistency(fv)
             # (R3) text report
             try:
